@@ -805,7 +805,7 @@ class Backend(threading.Thread):
                         s.tx = 'E'
                     continue
                 q = s.portals[portal][0]
-                s.log('Execute', portal=portal, ok=True, sql=q[:300])
+                s.log('Execute', portal=portal, ok=True, sql=q[:300], types=list(s.portals[portal][1]))
                 rep, ctl = s.exec_stmt(q, extended=True, maxrows=maxrows)
                 s.pend += b''.join(rep)
                 if ctl == 'error':
